@@ -389,7 +389,7 @@ def run(ctx):
         "model RowLeg.v is hand-written; tied to row_legalizer.cpp by exact comparison on the cases of this run",
         "optimality of the cascading-descent algorithm is proved without size bound (c12_optimal_unbounded) for the model over ideal Z; the proved checker is additionally run on every C++ result",
         "the exhaustive stream enumerates the property's own small bounds (7,4,3,3) in the THOROUGH tier only; the quick tier enumerates (5,3,3,2)",
-        "RowLegalizer::clear() and lastAvailablePos() are in neither model nor tie: histories that span a clear() are not covered",
+        "RowLegalizer::clear() and lastAvailablePos() are modelled (coq/ReviewGaps2C12Model.v), proved (Properties_gaps2_C12.v) and tied (histories with clear(), exact; 'after clear() the object behaves as a fresh one' judged on the C++ alone)",
         "machine-integer overflow is outside this model (ideal Z); see C07"])
 
 
